@@ -399,11 +399,16 @@ def case_results(ctx, rng, idx):
 def case_filename(ctx, rng, idx):
     """Template -> file name is deterministic and injective over distinct
     scalar values of the same type."""
-    kind = ["pyint", "pyfloat", "str", "npint", "npfloat", "tinyfloat"][idx % 6]
+    kind = ["pyint", "pyfloat", "str", "npint", "npfloat", "tinyfloat", "closefloat"][idx % 7]
     vals = []
     seen = set()
     for _ in range(12):
-        if kind == "tinyfloat":       # close together / tiny magnitudes
+        if kind == "closefloat":      # neighbours that agree in 12-15 significant digits
+            base = float(rng.choice([0.3, 1.0, 2.5e3, 7e-4]))
+            v = [base, float(np.nextafter(base, 10 * base)), base * (1 + 1e-13),
+                 base * (1 + 3e-15), 0.1 + 0.2 if base == 0.3 else base * (1 - 1e-14)][
+                int(rng.integers(0, 5))]
+        elif kind == "tinyfloat":       # close together / tiny magnitudes
             v = float(rng.integers(1, 50)) * float(rng.choice([1e-13, 1e-14, 1e-16, 1e-20]))
             if rng.random() < 0.3:
                 v = np.float64(v)
